@@ -739,6 +739,8 @@ func c14HuntChild(args []string) int {
 			switch r.Intn(10) {
 			case 0:
 				in = gen.PieceString(r.Intn(gen.PieceCount(6)), 6)
+			case 1, 2:
+				in = URLHeavyDoc(r)
 			default:
 				in = env.HostileInput(r)
 			}
